@@ -8,7 +8,7 @@ fn main() {
         let (tx, rx) = mpsc::channel();
         let m = mode.clone();
         std::thread::spawn(move || {
-            let out = if m == "worker" { mount_actix_server::drv_worker(&line) } else if m == "avail" { mount_actix_server::drv_avail(&line) } else { mount_actix_server::drv_accept(&line) };
+            let out = if m == "server" { mount_actix_server::drv_server(&line) } else if m == "worker" { mount_actix_server::drv_worker(&line) } else if m == "avail" { mount_actix_server::drv_avail(&line) } else { mount_actix_server::drv_accept(&line) };
             let _ = tx.send(out);
         });
         match rx.recv_timeout(Duration::from_secs(5)) {
